@@ -47,7 +47,7 @@ K_BYTES = 640           # bytes read per byte of file
 K_MEM = 32              # peak traced bytes per byte of file ...
 C_MEM = 1 << 20         # ... plus a constant (parser construction: about 100 KiB on the unchanged tree)
 WALL_CTOR = 20.0        # generous wall backstops (seconds); the deterministic measures decide long before
-WALL_ENUM = 60.0
+WALL_ENUM = 90.0
 N_RANDOM = 20000
 MEM_EVERY = 8           # tracemalloc on every 8th plan (and on every directed witness plan)
 MAX_ENUM_FAILURES = 8
@@ -396,11 +396,13 @@ def check(run):
         json.dump([list(b) for b in rand], f)
     sfx = 'quick' if quick else 'thorough'
     with ThreadPoolExecutor(max_workers=4) as ex:
-        w_plan = max(2, core.NPROC - 4) if core.NPROC >= 8 else core.NPROC
+        # 16 cores: 8 + 1 + 2 + 4; fewer: share
+        w_plan = max(1, core.NPROC // 2)
+        w_walk = max(1, core.NPROC // 4)
         fu_plan = ex.submit(run.tlc, 'Faults', 'Faults_' + sfx, {'SEEDS': seedjson}, w_plan)
         fu_rand = ex.submit(run.tlc, 'Faults', 'Faults_rand', {'RAND': randjson, 'SEEDS': ''}, 1)
-        fu_guard = ex.submit(run.tlc, 'FaultWalk', 'Faults_walk_guarded' + ('' if quick else '_thorough'), None, 2)
-        fu_format = ex.submit(lambda: run.tlc('FaultWalk', 'Faults_walk_format' + ('' if quick else '_thorough'), workers=2,
+        fu_guard = ex.submit(run.tlc, 'FaultWalk', 'Faults_walk_guarded' + ('' if quick else '_thorough'), None, max(1, w_walk // 2))
+        fu_format = ex.submit(lambda: run.tlc('FaultWalk', 'Faults_walk_format' + ('' if quick else '_thorough'), workers=w_walk,
                                               extra_args=('-lncheck', 'final'), check_result=False))
         res_plan, res_rand, res_guard, res_format = fu_plan.result(), fu_rand.result(), fu_guard.result(), fu_format.result()
 
@@ -493,7 +495,8 @@ def check(run):
             raise core.MachineryError('unmodified seed %s does not pass: %r' % (sinfo[meta[idx]['s']]['id'], r))
     ndrift = 0
     drift = {}
-    stats = {'ctor': {}, 'enum': {}, 'enum_exception_classes': {}, 'max_reads_ratio': 0.0, 'max_bytes_ratio': 0.0, 'max_mem_ratio': 0.0}
+    stats = {'ctor': {}, 'enum': {}, 'enum_exception_classes': {}, 'max_reads_ratio': 0.0, 'max_bytes_ratio': 0.0, 'max_peak_bytes': 0,
+             'memory_measured_on': 0}
     cal = []
 
     def tally(r):
@@ -506,8 +509,9 @@ def check(run):
         if r['enum'] == 'ok' or calibrate:
             stats['max_reads_ratio'] = max(stats['max_reads_ratio'], round(r['reads'] / (r['n'] + 1), 2))
             stats['max_bytes_ratio'] = max(stats['max_bytes_ratio'], round(r['bytes'] / (r['n'] + 1), 2))
-            if r['peak'] >= 0 and r['n']:
-                stats['max_mem_ratio'] = max(stats['max_mem_ratio'], round(max(0, r['peak'] - C_MEM) / r['n'], 2))
+            if r['peak'] >= 0:
+                stats['max_peak_bytes'] = max(stats['max_peak_bytes'], r['peak'])
+                stats['memory_measured_on'] += 1
 
     def case_of(mt, r):
         c = {'faults': mt.get('f'), 'size': r['n']}
